@@ -5,5 +5,5 @@ KindsLeaf == LeafKinds
 CardsAll == AllCards
 PositionsAll == AllPositions
 \* quick tiers: every kind and cardinality at every position, single elements
-PositionsCore == {"top", "nested", "arrelem", "mapval", "arm", "armdirect", "flat", "flat2", "exposed", "expdirect", "rootoneof"}
+PositionsCore == {"top", "nested", "arrelem", "mapval", "arm", "armdirect", "flat", "flat2", "flat3", "exposed", "expdirect", "rootoneof"}
 =============================================================================
